@@ -90,7 +90,8 @@ func HC15_count_and_front() {
 	rt.Assume(k < K) // a bias that removes every criterion is outside the domain
 	bias := NewCriteriaOmission(c15orderings())
 	snap := rt.Snapshot(current)
-	original := vh.Params(vh.Alternatives("orig.", vh.AltIds[:2], crit), []string{"a"}, crit, majority.MajorityHeuristicParams{Weights: vh.Weights("orig.w.", crit, 0, 4)}) // differs from current: must not be used
+	origCrit := append(append(model.Criteria{}, crit...), model.Criterion{Id: "dropped-earlier", Type: model.Gain}) // the original state also has a criterion an earlier bias dropped
+	original := vh.Params(vh.Alternatives("orig.", vh.AltIds[:2], origCrit), []string{"a"}, origCrit, majority.MajorityHeuristicParams{Weights: vh.Weights("orig.w.", origCrit, 0, 4)}) // differs from current: must not be used
 	res := bias.Apply(original, current, &bp, &listener)
 	rt.Assert("C15.received-state-untouched", rt.Same(snap, current))
 	rep := res.Props.(CriteriaOmissionResult)
